@@ -192,6 +192,73 @@ def gen_proxy(ctx):
     return cases
 
 
+def gen_tcp(ctx):
+    """real TCP on both sides: half-close / close / RST from either peer, and "one direction ends while the other is
+    blocked in Write on a full window" (a peer that does not read, small socket buffers, megabytes in flight)"""
+    P = lambda send=0, read="drain", end="wait", delay=0: {"send": send, "read": read, "end": end, "delay_ms": delay}
+    big = 6 * 1024 * 1024
+    cases = []
+
+    def add(name, client, covert, bound=15000):
+        cases.append({"name": name, "client": client, "covert": covert, "bound_ms": bound})
+    for end in ("closewrite", "close", "rst"):
+        add("client-sends-then-" + end, P(10000, "drain", end), P(0, "drain", "wait"))
+        add("covert-sends-then-" + end, P(0, "drain", "wait"), P(10000, "drain", end))
+        add("both-send-client-" + end, P(30000, "drain", end, 50), P(20000, "drain", "wait"))
+        add("idle-client-" + end, P(0, "drain", end, 100), P(0, "drain", "wait"))
+        add("idle-covert-" + end, P(0, "drain", "wait"), P(0, "drain", end, 100))
+        # the download direction is blocked in Write to the client (client does not read); then the upload direction ends
+        add("down-blocked-client-" + end, P(100, "none", end, 300), P(big, "drain", "wait"))
+        # the upload direction is blocked in Write to the covert (covert does not read); then the download direction ends
+        add("up-blocked-covert-" + end, P(big, "drain", "wait"), P(100, "none", end, 300))
+    # both directions blocked in Write, then one peer goes away
+    add("both-blocked-client-close", P(big, "none", "close", 300), P(big, "none", "wait"))
+    add("both-blocked-covert-rst", P(big, "none", "wait"), P(big, "none", "rst", 300))
+    return cases
+
+
+def check_tcp(ctx, cases, out):
+    """the property's statement on the real-TCP lane"""
+    for c, r in zip(cases, out["cases"]):
+        slim = dict(c, mode="tcp")
+        ctx.count(slim, nontrivial=True, kind="tcp/" + c["name"].rsplit("-", 1)[0])
+        key = "tcp/" + c["name"]
+        if r["panic"]:
+            if r["panic"].startswith(("listen", "dial", "accept")):
+                ctx.broken("driver", "real-TCP lane could not set up sockets: %s" % r["panic"], slim)
+            else:
+                ctx.fail("panic/" + key, "Proxy panicked on real TCP connections", slim)
+            continue
+        if r["clientKind"] != "tcp":
+            ctx.broken("driver", "the client connection handed to Proxy is not a *net.TCPConn", slim)
+        if not r["returned"]:
+            ctx.fail("no-return/" + key, "Proxy did not return within %d ms after a peer ended / stalled (real TCP on both sides): "
+                     "one direction ended while the other stayed blocked" % c["bound_ms"], slim)
+            continue
+        for side in ("client", "covert"):
+            o = r[side]
+            # a peer that was not reading sees the end only after the station's lingering socket has pushed out its
+            # backlog (zero-window probes back off for many seconds): closure is judged at the peers that read
+            if c[side]["read"] == "drain" and (o["sawClose"] == "" or o["sawClose"].startswith("other")):
+                ctx.fail("not-closed/%s/%s" % (key, side), "after Proxy returned the %s peer did not see its connection closed "
+                         "(read side ended with %r)" % (side, o["sawClose"]), slim)
+            if not o["gotOK"]:
+                ctx.fail("corrupt/%s/%s" % (key, side), "the %s peer received bytes that are not a prefix of what the other peer sent" % side, slim)
+        if r["covert"]["got"] > r["client"]["sent"] or r["client"]["got"] > r["covert"]["sent"]:
+            ctx.fail("invented/" + key, "a peer received more bytes than the other one sent", slim)
+        graceful = c["name"].startswith(("client-sends-then-closewrite", "covert-sends-then-closewrite"))
+        if graceful and (r["covert"]["got"] != r["client"]["sent"] or r["client"]["got"] != r["covert"]["sent"]):
+            ctx.fail("lost-data/" + key, "graceful half-close, yet %d of %d bytes arrived up and %d of %d down"
+                     % (r["covert"]["got"], r["client"]["sent"], r["client"]["got"], r["covert"]["sent"]), slim)
+    if out["gauge1"] != out["gauge0"]:
+        ctx.fail("gauge/tcp", "session gauge %d before the real-TCP lane, %d after every Proxy call ended" % (out["gauge0"], out["gauge1"]), {"mode": "tcp"})
+    if out["gleak"] > 0:
+        ctx.fail("goroutine-leak/tcp", "%d goroutine(s) still alive 13 s after every Proxy call of the real-TCP lane ended "
+                 "(the linger bound of the source closers is 10 s)" % out["gleak"], {"mode": "tcp"})
+    ctx.cov["tcp_lane"] = {"cases": len(cases), "max_return_ms": max([r["returnedMs"] for r in out["cases"]] + [0]),
+                           "goroutines_1s_after": out["gleakEarly"], "goroutines_13s_after": out["gleak"]}
+
+
 # ------------------------------------------------------------------ Gallina emitters
 def g_ts(t):
     if t is None:
@@ -286,11 +353,27 @@ def run(ctx):
                 # direction runs to completion before its closer is scheduled
                 c["sched"] = [] if c["cf"] else [t] * (4 * len(c[c["dir"]]["reads"]) + 12)
     jc = [{k: v for k, v in c.items() if k not in ("why", "cf")} for c in cases]
-    files = {"zz_verif_driver_test.go": "c05/halfpipe_driver_test.go"}
+    files = {"zz_verif_driver_test.go": "c05/halfpipe_driver_test.go", "zz_verif_tcp_test.go": "c05/tcp_driver_test.go"}
+    # the real-TCP lane runs in its own test process, concurrently with the scripted cases
+    tcp_cases = [{k: v for k, v in f["case"].items() if k != "mode"} for f in rp.get("failures", [])
+                 if isinstance(f.get("case"), dict) and f["case"].get("mode") == "tcp" and "client" in f["case"]] + gen_tcp(ctx)
+    tcp_box = {}
+
+    def tcp_lane():
+        tcp_box["r"] = ctx.go_inpkg(".", "pkg/station/lib", files, "^TestVerifC05TCP$", tcp_cases, timeout=300)
+    import threading
+    th = threading.Thread(target=tcp_lane)
+    th.start()
     rc, out, res = ctx.go_inpkg(".", "pkg/station/lib", files, "^TestVerifC05$", jc, timeout=900)
+    th.join()
     if res is None or len(res) != len(cases):
         ctx.broken("driver", "Go driver did not produce results (rc=%s): %s" % (rc, out[-1200:]))
         return
+    rct, outt, rest = tcp_box.get("r", (1, "lane did not run", None))
+    if rest is None or len(rest.get("cases", [])) != len(tcp_cases):
+        ctx.broken("driver", "Go driver (real-TCP lane) did not produce results (rc=%s): %s" % (rct, outt[-1200:]))
+    else:
+        check_tcp(ctx, tcp_cases, rest)
     rc2, out2, pres = ctx.go_inpkg(".", "pkg/station/lib", files, "^TestVerifC05$",
                                    [{k: v for k, v in c.items() if k != "why"} for c in proxy_cases], timeout=900)
     if pres is None or len(pres) != len(proxy_cases):
@@ -408,9 +491,29 @@ def run(ctx):
     ctx.sample({"case": proxy_cases[0], "observed": pres[0]})
     ctx.require_kinds(["half/nofault", "half/read-fault/data", "half/read-fault/nodata", "half/write-fault/short",
                        "half/write-fault/err", "half/deadline-fault", "half/close-fault", "half/close-blocks", "half/pair/read+write",
-                       "half/pair/read+deadline", "half/large", "pair/exh-sched", "pair/random", "free/free", "proxy/dialfail"])
+                       "half/pair/read+deadline", "half/large", "pair/exh-sched", "pair/random", "free/free", "proxy/dialfail",
+                       "tcp/down-blocked-client", "tcp/up-blocked-covert", "tcp/client-sends-then", "tcp/both-blocked-client"])
     idx = [i for i, t in enumerate(terms) if t is not None]
-    mm = ctx.coq_mismatches("hp", HEADER, [terms[i] for i in idx], "chk", shard=400, need_vo=["C05/Run.vo"])
+    # real-TCP lane: kinds seen by the driver, Proxy returned, the reading peers saw their connection closed
+    tcp_terms, tcp_meta = [], []
+    if rest is not None and len(rest.get("cases", [])) == len(tcp_cases):
+        for c, r in zip(tcp_cases, rest["cases"]):
+            if r["panic"]:
+                continue
+
+            def seen(side):
+                o = r[side]
+                return c[side]["read"] != "drain" or (o["sawClose"] != "" and not o["sawClose"].startswith("other"))
+            tcp_terms.append("CTcp (%s, %s, %s, %s, %s)" % (gbool(r["clientKind"] == "tcp"), gbool(True), gbool(r["returned"]),
+                                                              gbool(r["returned"] and seen("client")), gbool(r["returned"] and seen("covert"))))
+            tcp_meta.append((c, r))
+    mm = ctx.coq_mismatches("hp", HEADER, [terms[i] for i in idx] + tcp_terms, "chk", shard=400, need_vo=["C05/Run.vo"])
+    if mm and mm[0] >= len(idx):
+        c, r = tcp_meta[mm[0] - len(idx)]
+        ctx.cov["mismatches"] += len(mm)
+        ctx.broken("correspondence", "model C05 (connection kind TCP/TCP: caller returns, full SetLinger+Close on both connections) and the "
+                   "implementation disagree on %d real-TCP case(s); first: %s" % (len(mm), c["name"]), {"case": dict(c, mode="tcp"), "observed": r})
+        mm = []
     if mm:
         ctx.cov["mismatches"] += len(mm)
         i = idx[mm[0]]
